@@ -418,3 +418,28 @@ PROPS["C09"] = {
                   "the property states and a model that predicts conflicts.",
     "level_note": "Export order of merged instances is not compared (the statement allows 'up to import order').",
 }
+
+PROPS["C11"] = {
+    "shards": 16,
+    "quick_budget_s": 60,
+    "thorough_budget_s": 900,
+    "floors": {"any": {"pair:None": 200, "pair:Superset": 50, "pair:ImportRemoved": 50, "pair:ExportAdded": 50,
+                       "pair:ImportTypeChanged": 50, "pair:ExportTypeChanged": 50, "pair:VersionShift": 5,
+                       "resolve:accept": 200, "resolve:import-not-in-target": 50, "resolve:missing-export": 50,
+                       "resolve:type-mismatch": 100, "reference:subtype": 100, "reference:not-subtype": 100}},
+    "rule": "Each case draws a library (2-4 interfaces, half of the time versioned, a quarter with resources, `use` across "
+            "interfaces), a component (0-2 interface imports, 0-2 interface exports, 1-2 plain function imports and exports with one "
+            "of 3 signatures) and a target world derived from the component's own world by one perturbation: none, superset "
+            "(extra imports, fewer exports), one import removed, one export added, the type of an import or of an export changed, "
+            "or an interface import shifted to another version on the same track. The document `package test:comp targets "
+            "test:tgt/w; let i = new test:c0 { ... };` exports everything by spread or by named access. Verdicts compared: the "
+            "expectation by construction, Document::resolve (Ok / ImportNotInTarget / MissingTargetExport / TargetMismatch), "
+            "validate_target on (world package, output of the same document without the clause), and for resource-free libraries "
+            "wasmparser's `output <: world` with both nested in one validator. Non-trivial: every pair; distinct by perturbation "
+            "and world shape.",
+    "assumptions": ["the world package is encoded by wit_component::encode exactly as `wac targets` does"],
+    "technique": "runtime monitor: four-way differential oracle (construction, resolver, stand-alone checker, reference validator subtyping)",
+    "level_text": "Both implementations of conformance and an external reference are run on every generated pair and must agree with each "
+                  "other and with what the pair was built to be.",
+    "level_note": "Perturbations are single faults; resources are only compared between wac's two implementations.",
+}
